@@ -244,3 +244,18 @@ package pmm
 //@   loop 1 invariant bits: bitsAre(alloc)
 //@   loop 1 invariant handed: handedOK()
 //@   loop 1 use forall(x, mm.Frame, emptySet(x))
+
+// first pass of setupPoolBitmaps, one memory-map entry: an available entry adds one pool slot,
+// its whole-frame count to totalPages, and enough bitmap bytes (a multiple of 8) for one bit per
+// frame to the storage requirement; any other entry changes nothing
+//@ func (alloc *BitmapAllocator) setupPoolBitmaps$1(region *multiboot.MemoryMapEntry) (cont bool)
+//@   property C01 C03
+//@   raw region
+//@   requires alloc != nil && pageSizeMinus1 == 4095 && addrof(region) < 0x1000000000000 && regSane(addrof(region))
+//@   requires mem32(addrof(region)+16) == 1 ==> regStart(addrof(region)) <= regEnd(addrof(region)) && regEnd(addrof(region)) < 0x10000000000000 && uint64(regEnd(addrof(region)) - regStart(addrof(region))) < 0xffffff00
+//@   modifies requiredBitmapBytes, alloc.totalPages, reflect.SliceHeader.Len, reflect.SliceHeader.Cap
+//@   ensures goes: cont
+//@   ensures skip: mem32(addrof(region)+16) != 1 ==> requiredBitmapBytes == old(requiredBitmapBytes) && alloc.totalPages == old(alloc.totalPages) && alloc.poolsHdr.Len == old(alloc.poolsHdr.Len)
+//@   ensures slot: mem32(addrof(region)+16) == 1 ==> alloc.poolsHdr.Len == old(alloc.poolsHdr.Len) + 1 && alloc.poolsHdr.Cap == old(alloc.poolsHdr.Cap) + 1
+//@   ensures pages: mem32(addrof(region)+16) == 1 ==> alloc.totalPages == old(alloc.totalPages) + uint32(regEnd(addrof(region)) - regStart(addrof(region)) + 1)
+//@   ensures bytes: mem32(addrof(region)+16) == 1 ==> (requiredBitmapBytes - old(requiredBitmapBytes)) & 7 == 0 && (requiredBitmapBytes - old(requiredBitmapBytes)) * 8 >= uint64(regEnd(addrof(region)) - regStart(addrof(region))) + 1 && (requiredBitmapBytes - old(requiredBitmapBytes)) * 8 < uint64(regEnd(addrof(region)) - regStart(addrof(region))) + 1 + 64
